@@ -121,7 +121,9 @@ impl<const N: usize, T: Send + Sync> AtomicIter<T> for ConIterOfArray<N, T> {
     }
 
     fn early_exit(&self) {
-        self.counter().store(N)
+        // reserves all remaining elements at once, as a chunk, and drops them;
+        // storing the length into the counter would leave them without an owner: never dropped
+        drop(self.fetch_n(N));
     }
 }
 
